@@ -530,3 +530,36 @@ def r11H(F, rid='11.H'):
 
 RULES.append(('11.H', 'block_confirmed hands the OnchainTxHandler its own conf_height parameter as confirmation height and the best block height as current height (argument provenance by position)', r11H))
 RULES.append(('11.N', 'arithmetic census: per reviewed function the number of operations per (group: add/sub, mul, div, rem, shift, bit, min, max, div_ceil ...; flavour: plain / checked / saturating / wrapping) is unchanged - a dropped or added `+ 1`, a rounding direction, saturating for checked, min for max (rules/arith.py; value arithmetic itself is not decided)', lambda F: arith.for_property(F, 'C11', '11.N')))
+
+def r11J(F):
+	"""an HTLC failed by a counterparty-commitment update that arrives after the funding spend already confirmed is anchored to the block of that
+	spend: in fail_htlcs_from_update_after_funding_spend every component of the pending-spend description (txid, transaction, height, block hash)
+	is read from the pending FundingSpendConfirmation entry itself, none from the monitor's current state - an entry stamped with the tip height
+	is dropped by a reorg that leaves the commitment confirmed, and the HTLC is never failed back"""
+	fn = MON + 'fail_htlcs_from_update_after_funding_spend'
+	out = []
+	n = 0
+	for cn in F.closures_of(F.fn(fn)):
+		cu = F.func(cn)
+		ty = cu.locals[0].get('ty') or ''
+		if not ty.startswith('(') or 'u32' not in ty or cu.argc < 2:
+			continue
+		ex = Expr(cu)
+		for d in cu.defs.get(0, []):
+			if d[1] == 'T' or d[3][0] != 'agg':
+				continue
+			e = ex.of_rvalue(d[3])
+			n += 1
+			bad = []
+			for i, comp in enumerate(e[3]):
+				ids = set(expr_local_ids(comp))
+				# rooted in the closure's own argument (the entry), not in a captured variable (id -1 = upvar) or the environment (local 1)
+				if not ids or (ids - {2}):
+					bad.append((i, expr_str(comp)[:50]))
+			ok = not bad
+			out.append(Result('11.J', ok, ('ok:' if ok else 'height:') + 'pending-spend-from-entry', 'fail_htlcs_from_update_after_funding_spend: every component of the pending funding-spend description is read from the FundingSpendConfirmation entry' if ok else 'fail_htlcs_from_update_after_funding_spend: component(s) %s of the pending funding-spend description are not read from the FundingSpendConfirmation entry: the failure is anchored to another block than the spend, and a reorg above the spend drops it' % bad, len(e[3]), where=F.where(cn)))
+	if n < 1:
+		out.append(Result('11.J', False, 'anchor:pending-spend-tuple', 'fail_htlcs_from_update_after_funding_spend: the closure describing the pending funding spend was not found', where=F.where(F.fn(fn))))
+	return out
+
+RULES.append(('11.J', 'a late counterparty-commitment update fails its HTLCs at the height of the pending funding spend entry (all components of the description come from the entry)', r11J))
